@@ -7,7 +7,8 @@ ID = 'C11'
 TARGETS = ['SmppVerif.Props.C11']
 RULE = ('all pairs of basic septets behind 0..7 padding septets (all 8 bit alignments), every length 0..64 over '
         'class representatives, extension characters at every offset 0..16, random texts to 200 characters '
-        'in 3 modes, random octet strings and packed encodings (decode direction, 3 modes); '
+        'in 3 modes, random octet strings and packed encodings (decode direction, 3 modes), texts encoded again after they '
+        'went through both codecs (history independence); '
         'distinct-nontrivial = distinct (operation, mode, septet count mod 8 | octet count mod 7, '
         'character classes, outcome class)')
 TRUSTED = ['Lean 4.33.0 kernel', 'axioms: propext, Classical.choice, Quot.sound',
@@ -96,6 +97,25 @@ def dec_case(mode, data):
                 {'op': 'dec', 'mode': mode, 'hex': data.hex()})
 
 
+def hist_case(mode, text, k):
+    """the packed codec is a function of its input: same octets after the text went through both codecs before"""
+    from aiosmpplib.codec import find_codec_info
+    plain = find_codec_info('gsm0338')
+    for _ in range(k):
+        for c in (codec(), plain, codec()):
+            try:
+                b = c.encode(text, mode)[0]
+                c.decode(b, mode)
+            except Exception:      # noqa
+                pass
+    case = enc_case(mode, text)
+    case.inp = {'op': 'hist', 'mode': mode, 'text': [ord(ch) for ch in text], 'k': k}
+    case.sig = ('hist',) + tuple(case.sig[1:])
+    if case.fail:
+        case.fail = 'after the same text went through the gsm0338_packed and gsm0338 codecs %d time(s): %s' % (k, case.fail)
+    return case
+
+
 def generate(rng, tier):
     thorough = tier == 'thorough'
     basic = [spec.BASIC[k] for k in range(128) if k != spec.ESC]
@@ -135,6 +155,11 @@ def generate(rng, tier):
         n = rng.randrange(0, 160)
         t = ''.join(rng.choice(alpha) for _ in range(n))
         yield dec_case(rng.choice(MODES), spec_pack(spec.encode(t)))
+    # history independence
+    for _ in range(3000 if thorough else 500):
+        n = rng.randrange(1, 40)
+        t = ''.join(rng.choice(alpha) for _ in range(n))
+        yield hist_case(rng.choice(MODES), t, rng.randrange(1, 4))
     # trailing escape in every alignment
     for n in range(0, 24):
         septets = [rng.randrange(128) for _ in range(n)] + [spec.ESC]
@@ -143,6 +168,8 @@ def generate(rng, tier):
 
 
 def replay(inp):
+    if inp['op'] == 'hist':
+        return hist_case(inp['mode'], ''.join(chr(c) for c in inp['text']), inp['k'])
     if inp['op'] == 'enc':
         return enc_case(inp['mode'], ''.join(chr(c) for c in inp['text']))
     return dec_case(inp['mode'], bytes.fromhex(inp['hex']))
